@@ -41,15 +41,39 @@ func genC09Conc(t *rapid.T) bson.D {
 	for i, m := 0, rapid.IntRange(0, 120).Draw(t, "tapelen"); i < m; i++ {
 		tape = append(tape, int32(rapid.SampledFrom([]int{0, 0, 1, 2, 2, 3}).Draw(t, "tape")))
 	}
-	return bson.D{{Key: "writers", Value: writers}, {Key: "consumers", Value: consumers}, {Key: "tape", Value: tape}, {Key: "procs", Value: int32(rapid.SampledFrom([]int{2, 4, 16}).Draw(t, "procs"))}}
+	// some runs start on a change log that sits at its retention limit: every
+	// commit then appends events and discards as many old ones
+	aged := rapid.IntRange(0, 999).Draw(t, "aged")%5 == 2
+	return bson.D{{Key: "writers", Value: writers}, {Key: "consumers", Value: consumers}, {Key: "tape", Value: tape}, {Key: "procs", Value: int32(rapid.SampledFrom([]int{2, 4, 16}).Draw(t, "procs"))}, {Key: "aged", Value: aged}}
 }
 
 func runC09ConcOnce(c bson.D, x *Ctx) error {
 	old := runtime.GOMAXPROCS(asI(getD(c, "procs")))
 	defer runtime.GOMAXPROCS(old)
-	env, err := openMem()
+	open := openMem
+	if asB(getD(c, "aged")) {
+		open = openFile
+	}
+	env, err := open()
 	if err != nil {
 		return fmt.Errorf("harness: %v", err)
+	}
+	if asB(getD(c, "aged")) {
+		// 100 events two hours old, 80 of which are kept: the whole run (at
+		// most 72 events) cannot push a stream's starting position out of
+		// the log, but every commit discards as many old events as it appends
+		var pre []interface{}
+		for i := 0; i < 100; i++ {
+			pre = append(pre, bson.D{{Key: "_id", Value: int32(i)}})
+		}
+		if _, err := env.coll("pre.p").InsertMany(context.Background(), pre); err != nil {
+			return fmt.Errorf("harness: %v", err)
+		}
+		env.ageMinSize = 80
+		if err := env.age(); err != nil {
+			return fmt.Errorf("harness: ageing the change log failed: %v", err)
+		}
+		x.Class("change-log-at-retention-limit")
 	}
 	closed := false
 	defer func() {
@@ -205,6 +229,10 @@ func runC09ConcOnce(c bson.D, x *Ctx) error {
 	for i, cn := range cons {
 		var want []bson.D
 		for _, ev := range oplog {
+			// events of the preparation phase precede every stream
+			if asS(getPathD(*ev, "ns.db")) == "pre" {
+				continue
+			}
 			if inScope(cn.st, *ev) {
 				want = append(want, *ev)
 			}
